@@ -3,11 +3,11 @@
    OCaml's; N, Z, positive stay Coq datatypes (no machine integers anywhere). *)
 Require Extraction.
 Require Import ExtrOcamlBasic.
-From NIPAM Require Import Pool Prio Sel Lbl Alloc Sys Valid.
+From NIPAM Require Import Pool Prio Sel Lbl Alloc Sys Valid ValidSel.
 Extraction "model.ml"
   new_pool occupy release next_candidate go_index_to_block go_get_index go_begin_end gmax
   wf_geomb wf_cidrb overlapb
   less sort_by req_matches match_reqs flatten_sel parse_int64
   step init_world finalizer default_key ordered_matching default_reqs
   validate_spec validate_update get_entry
-  selector_key parse sel_parse match_key lex.
+  selector_key parse sel_parse match_key lex validate_spec_raw.
